@@ -303,3 +303,19 @@ CHECKS["C02"] = {
          "checks_quick": 6, "checks_thorough": 120, "shards_quick": 8, "shards_thorough": 16, "timeout_quick": 400, "timeout_thorough": 2400},
     ],
 }
+
+CHECKS["C03"] = {
+    "level": "fault_enumeration",
+    "technique": "stateful property testing (rapid): generated interleavings of client operations with explicitly driven hand-over steps (join, routing push, single balancer rounds, janitor, compaction, leave, crash at a move step) against a key/value model",
+    "level_text": ("Members run without periodic routing push, balancer, janitor and compaction; the harness invokes those as generated steps, so Put / overwrite / Delete / Get / Scan are placed after the push but before a move, between table moves of a multi-table fragment, "
+                   "after the move but before the emptied owner is pruned, and after. With R = 2 one graceful or abrupt leave, or a crash of the sender (move.afterSend, move.beforeDrop) or receiver (merge.entry) inside a fragment move, is injected once the backups are in place. "
+                   "Every read during the hand-over must return the last acknowledged value and every delete must stick; at the end the hand-over is driven to quiescence and every key must read its last value from every member, deleted keys must stay not-found, "
+                   "white box each key has exactly one primary copy, on the partition's owner, its backup copies exist, and a scan yields the model's keys."),
+    "level_note": "trusted: the harness' stepping accessors (BalanceEagerly, UpdateEagerly, janitor, the compaction routine) and abrupt stop; quiescence has a step budget (inconclusive when exceeded); placement relative to a routing push in flight is not controlled",
+    "rule": "non-trivial = an overwrite, delete or read of an existing key executed while its partition had >= 2 owners and a fragment of >= 2 tables, or a crash point that fired; distinct = distinct case hash",
+    "assumptions": ["at most R-1 members are lost per case; keys written while fewer than R members were present are only checked for staleness and resurrection after a loss"],
+    "parts": [
+        {"name": "rebalance", "pkg": ROOT, "test": "TestVerifC03", "kind": "rapid",
+         "checks_quick": 12, "checks_thorough": 300, "shards_quick": 8, "shards_thorough": 16, "timeout_quick": 400, "timeout_thorough": 2400},
+    ],
+}
